@@ -12,6 +12,7 @@ import (
 	"fmt"
 	"io"
 	"sort"
+	"strconv"
 	"testing"
 	"time"
 
@@ -51,8 +52,8 @@ var rsGVR = apps.SchemeGroupVersion.WithResource("replicasets")
 // nullRecorder discards events (record.FakeRecorder blocks once its buffer is full).
 type nullRecorder struct{}
 
-func (nullRecorder) Event(runtime.Object, string, string, string)                    {}
-func (nullRecorder) Eventf(runtime.Object, string, string, string, ...interface{})   {}
+func (nullRecorder) Event(runtime.Object, string, string, string)                  {}
+func (nullRecorder) Eventf(runtime.Object, string, string, string, ...interface{}) {}
 func (nullRecorder) AnnotatedEventf(runtime.Object, map[string]string, string, string, string, ...interface{}) {
 }
 
@@ -65,6 +66,9 @@ type rsView struct {
 	Y       int32  `json:"ready"`
 	A       int32  `json:"available"`
 	Created int64  `json:"created"`
+	// Desired: the desired-replicas annotation (-1 = absent). Used only to recognise the input
+	// class of a listed finding, never by an oracle.
+	Desired int `json:"desired"`
 }
 
 // rsWrite is one ReplicaSet create/update issued by the controller during a sync.
@@ -92,6 +96,12 @@ func viewOf(rs *apps.ReplicaSet) rsView {
 	v := rsView{Name: rs.Name, R: rs.Status.Replicas, Y: rs.Status.ReadyReplicas, A: rs.Status.AvailableReplicas, Created: rs.CreationTimestamp.Unix()}
 	if rs.Spec.Replicas != nil {
 		v.Spec = *rs.Spec.Replicas
+	}
+	v.Desired = -1
+	if a, ok := rs.Annotations["deployment.kubernetes.io/desired-replicas"]; ok {
+		if x, err := strconv.Atoi(a); err == nil {
+			v.Desired = x
+		}
 	}
 	if len(rs.Spec.Template.Spec.Containers) > 0 {
 		v.Image = rs.Spec.Template.Spec.Containers[0].Image
